@@ -2,7 +2,7 @@
 
   throw X{..};                           (already lowered by lower.throws to  { g_exc = EXC_..; return d; } )
   try { S } catch (std::exception const& e) { H1 } catch (...) { H2 }
-        ->  { S'  goto __endtry_k; __catch_k: ; if (g_exc == EXC_STD) { g_exc = 0; H1' } else if (g_exc != 0) { g_exc = 0; H2' } __endtry_k: ; }
+        ->  { S'  __catch_k: ; if (g_exc == EXC_STD) { g_exc = 0; H1' } else if (g_exc != 0) { g_exc = 0; H2' } if (g_exc) <leave>; }
         where S' = S with `if (g_exc) goto __catch_k;` after every statement that calls something that may throw.
         A handler that is absent in the source is absent in the lowering: an exception nobody catches stays in
         g_exc; after the construct the enclosing action (goto outer catch / return) fires.
@@ -182,7 +182,9 @@ class Lowerer:
             k = self.k
             self.st['try'] = self.st.get('try', 0) + 1
             lab, end = '__catch_%d' % k, '__endtry_%d' % k
-            out = '\n{ ' + self.gen(blk, 'goto %s;' % lab) + ' goto %s; %s: ;' % (end, lab)
+            # normal completion falls through the handler tests with g_exc == 0 (no jump over them: a forward goto to a label at the
+            # end of a while body gives the loop a second back edge, which DFCC's loop-contract instrumentation mishandles)
+            out = '\n{ ' + self.gen(blk, 'goto %s;' % lab) + ' %s: ;' % lab
             first = True
             for decl, hb in handlers:
                 if decl == '...':
@@ -196,7 +198,9 @@ class Lowerer:
                 out += '\n%sif (%s) { g_exc = 0; %s }' % ('' if first else 'else ', cond, self.gen(hb, action))
                 first = False
             # an exception no handler took stays in g_exc: leave through the enclosing action
-            out += '\n if (g_exc) %s\n %s: ; }' % (action, end)
+            # the end label must not be the last instruction of an enclosing loop body (DFCC's loop-step cut would be jumped over)
+            # (g_exc is 0 whenever the end label is reached: a real, semantically void instruction for the label to sit on)
+            out += '\n if (g_exc) %s\n }' % action
             return out
         raise ExtractError('unknown node ' + t)
 
